@@ -29,8 +29,16 @@ pub fn run_history(seed: u64, idx: u64, exact: bool, verbose: bool) -> Outcome {
     let spec = tree(&mut rng, &cfg);
     let (mut w, root) = World::new(&spec);
     let a0 = avail(&mut rng, &cfg);
+    #[cfg(taffy_verif)]
+    let mut scribbled: std::collections::HashMap<taffy::NodeId, bool> = std::collections::HashMap::new();
+    #[cfg(taffy_verif)]
+    taffy::verif_hooks::start_trace();
     compute(&mut w.t, root, a0);
+    #[cfg(taffy_verif)]
+    update_scribbled(&taffy::verif_hooks::take_trace(), &mut scribbled);
     let nops = 5 + rng.below(25);
+    // `scribbled`: which stored layouts were last written under a ComputeSize evaluation (persists across passes: a later
+    // pass that is answered from the cache leaves such a layout in place)
     let mut out = Outcome { fails: vec![], layouts: 0, ops: 0, fresh_scribbles: 0, trace: vec![] };
     if verbose {
         out.trace.push(format!("initial tree: {:#?}\ninitial layout avail={:?}", spec, a0));
@@ -44,6 +52,8 @@ pub fn run_history(seed: u64, idx: u64, exact: bool, verbose: bool) -> Outcome {
         let applied = w.apply(&op);
         #[cfg(taffy_verif)]
         let trace = taffy::verif_hooks::take_trace();
+        #[cfg(taffy_verif)]
+        update_scribbled(&trace, &mut scribbled);
         if verbose {
             out.trace.push(format!("step {step}: applied={applied} {:?}", op));
         }
@@ -89,20 +99,39 @@ pub fn run_history(seed: u64, idx: u64, exact: bool, verbose: bool) -> Outcome {
                     let class = {
                         let ci = classify(&trace, *n);
                         let cf = classify(&ftrace, *f);
-                        if ci == "scribble" || cf == "scribble" { "scribble" } else { ci }
+                        if ci == "scribble" || cf == "scribble" || (ci == "untouched" && scribbled.get(n).copied().unwrap_or(false)) {
+                            "scribble"
+                        } else {
+                            ci
+                        }
                     };
                     #[cfg(not(taffy_verif))]
                     let class = "untraced";
-                    // is the node inside a display:none region (itself or an ancestor display:none)?
+                    // is the node inside a display:none region (itself or an ancestor display:none)? and was the hidden layout
+                    // of one of those display:none nodes executed in this pass (then the whole region must be zero now)?
                     let mut hidden = false;
+                    #[allow(unused_mut)]
+                    let mut hidden_evaluated = false;
                     let mut cur = Some(*n);
                     while let Some(c) = cur {
                         if w.t.style(c).unwrap().display == taffy::Display::None {
                             hidden = true;
+                            #[cfg(taffy_verif)]
+                            if trace.iter().any(|e| matches!(e, taffy::verif_hooks::Event::Hidden { node } if *node == c)) {
+                                hidden_evaluated = true;
+                            }
                         }
                         cur = w.t.parent(c);
                     }
-                    let class = if hidden && class != "scribble" { "hiddenstale" } else { class };
+                    // known finding hidden-region-stale: the display:none ancestors were all answered from the cache (clean),
+                    // so nothing below them was touched; if a hidden layout DID run above the node, a non-zero layout is new
+                    let class = if hidden && hidden_evaluated {
+                        "hiddenevaluated"
+                    } else if hidden && class != "scribble" {
+                        "hiddenstale"
+                    } else {
+                        class
+                    };
                     let rank = if class == "scribble" { 1 } else if class == "hiddenstale" { 2 } else { 3 };
                     let msg = format!(
                         "node#{k}/{} class={} fields={} :: incremental {:?} vs fresh {:?}",
@@ -154,6 +183,24 @@ pub fn classify(trace: &[taffy::verif_hooks::Event], n: taffy::NodeId) -> &'stat
         Some(true) => "scribble",
         Some(false) => "perform",
         None => "untouched",
+    }
+}
+
+#[cfg(taffy_verif)]
+pub fn update_scribbled(trace: &[taffy::verif_hooks::Event], map: &mut std::collections::HashMap<taffy::NodeId, bool>) {
+    use taffy::verif_hooks::Event;
+    let mut stack: Vec<taffy::RunMode> = vec![];
+    for ev in trace {
+        match ev {
+            Event::Query { input, .. } => stack.push(input.run_mode),
+            Event::Return { .. } => {
+                stack.pop();
+            }
+            Event::SetLayout { node } => {
+                map.insert(*node, stack.iter().any(|m| *m == taffy::RunMode::ComputeSize));
+            }
+            Event::Hidden { .. } => {}
+        }
     }
 }
 
